@@ -1,4 +1,5 @@
-import Props.SlicesGen
+import Props.GenFetcher
+import Props.GenLoaders
 open Model.SlicesGen
 #print axioms entryLastN_eq
 #print axioms entryLastNKeeping_eq
